@@ -21,7 +21,7 @@ RULE = ("E1: (a,b) 10 codes x all option subsets of size <= 3 over 22 option ite
         "of ciphertext and OSCORE option, field-level edits (PIV +-1, PIV length, KID, KID context, flag bits), each followed by the genuine "
         "message on the same recipient; foreign contexts (other secret / salt / ID context, absent vs empty ID context), over "
         "sender/recipient ID lengths 0-7 x ID context {none, empty, 8 bytes} x 9 sequence numbers up to 2^40-2 (x 5 algorithms in the "
-        "thorough tier; two configurations per algorithm in the quick tier); (e) the 4.01 + Echo challenge after a loss of replay state never re-uses a nonce; distinct = distinct (family, shape, outcome)")
+        "thorough tier; two configurations per algorithm in the quick tier); (d2) the server-side choice of the context from a credentials map holding four ID contexts (absent, empty, two values) in every order, for senders of each of them and of an unknown one; (e) the 4.01 + Echo challenge after a loss of replay state never re-uses a nonce; distinct = distinct (family, shape, outcome)")
 ASSUMPTIONS = [
     "cbor2 / cryptography / filelock are the stand-ins of /verif/shims (OpenSSL libcrypto through ctypes), bound to RFC 3610, NIST GCM, "
     "RFC 8439, RFC 5869, RFC 8949 and RFC 8613 appendix C vectors at start-up; nothing is claimed about the real packages",
